@@ -59,7 +59,15 @@ class Mode:
         self.mode = mode
 
 
-CLASSES = {c.__name__: c for c in (P0, P1, P2, P3, T2, T12, Nest, Deep, Mode)}
+class Lst:
+    """a component holding a plain list (used fixed to an instance only: a table of values, a grid)"""
+
+    def __init__(self, values=(0.0,), k=1.0):
+        self.values = list(values)
+        self.k = k
+
+
+CLASSES = {c.__name__: c for c in (P0, P1, P2, P3, T2, T12, Nest, Deep, Mode, Lst)}
 
 
 class P1b:
